@@ -152,6 +152,46 @@ where
     out
 }
 
+/// the consuming adapters an iterator type may override (`last`, `count`, `nth`, `nth_back`, `fold`) must agree
+/// with what stepping through `next()` yields, on a fresh iterator and after one step from either end
+#[macro_export]
+macro_rules! iter_fin_ok {
+    ($c:expr, $m:ident, $enc:ident) => {{
+        let a: Vec<$crate::subj::Ints> = {
+            let mut v = Vec::new();
+            let mut it = $c.$m();
+            while let Some(t) = it.next() {
+                v.push($enc(t, None));
+            }
+            v
+        };
+        let n = a.len();
+        let last = $c.$m().last().map(|t| $enc(t, None));
+        let count = $c.$m().count();
+        let nth1 = $c.$m().nth(1).map(|t| $enc(t, None));
+        let nthb1 = $c.$m().nth_back(1).map(|t| $enc(t, None));
+        let mut folded = Vec::new();
+        $c.$m().fold((), |_, t| folded.push($enc(t, None)));
+        let mut it = $c.$m();
+        it.next();
+        let last_after_front = it.last().map(|t| $enc(t, None));
+        let mut it = $c.$m();
+        it.next_back();
+        let last_after_back = it.last().map(|t| $enc(t, None));
+        let mut it = $c.$m();
+        it.next();
+        let count_after_front = it.count();
+        last == a.last().cloned()
+            && count == n
+            && nth1 == a.get(1).cloned()
+            && nthb1 == (if n >= 2 { Some(a[n - 2].clone()) } else { None })
+            && folded == a
+            && last_after_front == (if n >= 2 { a.last().cloned() } else { None })
+            && last_after_back == (if n >= 2 { Some(a[n - 2].clone()) } else { None })
+            && count_after_front == n.saturating_sub(1)
+    }};
+}
+
 /// dispatch an iterator script over the ten iterator constructors of a list
 #[macro_export]
 macro_rules! iter_dispatch {
@@ -184,16 +224,76 @@ macro_rules! iter_dispatch {
             vec![old as i128]
         };
         match $kind {
-            0 => run_iter($c.$iter(), &pre, &pa, &pb, Some(&|i| i.clone()), &mut kv),
-            1 => run_iter($c.$iter_lru(), &pre, &pa, &pb, Some(&|i| i.clone()), &mut kv),
-            2 => run_iter($c.$iter_mut(), &pre, &pa, &pb, None, &mut kvm),
-            3 => run_iter($c.$iter_lru_mut(), &pre, &pa, &pb, None, &mut kvm),
-            4 => run_iter($c.$keys(), &pre, &pa, &pb, Some(&|i| i.clone()), &mut k),
-            5 => run_iter($c.$keys_lru(), &pre, &pa, &pb, Some(&|i| i.clone()), &mut k),
-            6 => run_iter($c.$values(), &pre, &pa, &pb, Some(&|i| i.clone()), &mut v),
-            7 => run_iter($c.$values_lru(), &pre, &pa, &pb, Some(&|i| i.clone()), &mut v),
-            8 => run_iter($c.$values_mut(), &pre, &pa, &pb, None, &mut vm),
-            9 => run_iter($c.$values_lru_mut(), &pre, &pa, &pb, None, &mut vm),
+            0 => {
+                let mut r = run_iter($c.$iter(), &pre, &pa, &pb, Some(&|i| i.clone()), &mut kv);
+                if !$crate::iter_fin_ok!($c, $iter, kv) {
+                    r.push(-8);
+                }
+                r
+            }
+            1 => {
+                let mut r = run_iter($c.$iter_lru(), &pre, &pa, &pb, Some(&|i| i.clone()), &mut kv);
+                if !$crate::iter_fin_ok!($c, $iter_lru, kv) {
+                    r.push(-8);
+                }
+                r
+            }
+            2 => {
+                let mut r = run_iter($c.$iter_mut(), &pre, &pa, &pb, None, &mut kvm);
+                if !$crate::iter_fin_ok!($c, $iter_mut, kvm) {
+                    r.push(-8);
+                }
+                r
+            }
+            3 => {
+                let mut r = run_iter($c.$iter_lru_mut(), &pre, &pa, &pb, None, &mut kvm);
+                if !$crate::iter_fin_ok!($c, $iter_lru_mut, kvm) {
+                    r.push(-8);
+                }
+                r
+            }
+            4 => {
+                let mut r = run_iter($c.$keys(), &pre, &pa, &pb, Some(&|i| i.clone()), &mut k);
+                if !$crate::iter_fin_ok!($c, $keys, k) {
+                    r.push(-8);
+                }
+                r
+            }
+            5 => {
+                let mut r = run_iter($c.$keys_lru(), &pre, &pa, &pb, Some(&|i| i.clone()), &mut k);
+                if !$crate::iter_fin_ok!($c, $keys_lru, k) {
+                    r.push(-8);
+                }
+                r
+            }
+            6 => {
+                let mut r = run_iter($c.$values(), &pre, &pa, &pb, Some(&|i| i.clone()), &mut v);
+                if !$crate::iter_fin_ok!($c, $values, v) {
+                    r.push(-8);
+                }
+                r
+            }
+            7 => {
+                let mut r = run_iter($c.$values_lru(), &pre, &pa, &pb, Some(&|i| i.clone()), &mut v);
+                if !$crate::iter_fin_ok!($c, $values_lru, v) {
+                    r.push(-8);
+                }
+                r
+            }
+            8 => {
+                let mut r = run_iter($c.$values_mut(), &pre, &pa, &pb, None, &mut vm);
+                if !$crate::iter_fin_ok!($c, $values_mut, vm) {
+                    r.push(-8);
+                }
+                r
+            }
+            9 => {
+                let mut r = run_iter($c.$values_lru_mut(), &pre, &pa, &pb, None, &mut vm);
+                if !$crate::iter_fin_ok!($c, $values_lru_mut, vm) {
+                    r.push(-8);
+                }
+                r
+            }
             _ => vec![-9],
         }
     }};
